@@ -227,27 +227,118 @@ def entries_in(node, fields):
 Lit = namedtuple("Lit", "text pos atom apos at live")
 
 
-def cases(fa, test, node_id, positive):
+def _strip_casts(e):
+    class C(ast.NodeTransformer):
+        def visit_Call(self, n):
+            self.generic_visit(n)
+            if isinstance(n.func, ast.Name) and n.func.id == "cast" and len(n.args) == 2:
+                return n.args[1]
+            return n
+
+    import copy
+    return C().visit(copy.deepcopy(e))
+
+
+def _canon_expanded(t, positive):
+    """FA._literal for an atom that is already expanded (no further expansion: the names left in it belong to
+    the places their values were taken from)."""
+    if isinstance(t, ast.Compare) and len(t.ops) == 1:
+        op = t.ops[0]
+        neg = {ast.IsNot: ast.Is, ast.NotEq: ast.Eq, ast.NotIn: ast.In}
+        if type(op) in neg:
+            op = neg[type(op)]()
+            positive = not positive
+        lt, rt = A.norm(_strip_casts(t.left)), A.norm(_strip_casts(t.comparators[0]))
+        if isinstance(op, ast.Eq) and rt < lt:
+            lt, rt = rt, lt
+        sym = {ast.Is: "is", ast.Eq: "==", ast.In: "in", ast.Lt: "<", ast.Gt: ">", ast.LtE: "<=", ast.GtE: ">="}.get(type(op), type(op).__name__)
+        return ("%s %s %s" % (lt, sym, rt), positive)
+    return (A.norm(_strip_casts(t)), positive)
+
+
+def cases(fa, test, node_id, positive, _expanded=False):
     """The ways a branch test can come out `positive`: a list of literal lists (disjunctive normal form,
     short-circuit order kept).  `a and b` taken false is `not a` | `a and not b`; a disjunction taken true
-    likewise; negations are pushed inward."""
+    likewise; negations are pushed inward; a local that holds a boolean combination / comparison
+    (`missing = key not in own`) is opened up."""
     t = test
     if isinstance(t, ast.UnaryOp) and isinstance(t.op, ast.Not):
-        return cases(fa, t.operand, node_id, not positive)
+        return cases(fa, t.operand, node_id, not positive, _expanded)
     if isinstance(t, ast.BoolOp):
         conj = (isinstance(t.op, ast.And) and positive) or (isinstance(t.op, ast.Or) and not positive)
         if conj:
             out = [[]]
             for v in t.values:
-                out = [p + c for p in out for c in cases(fa, v, node_id, positive)]
+                out = [p + c for p in out for c in cases(fa, v, node_id, positive, _expanded)]
             return out
         out, prefix = [], [[]]
         for v in t.values:
-            out += [p + c for p in prefix for c in cases(fa, v, node_id, positive)]
-            prefix = [p + c for p in prefix for c in cases(fa, v, node_id, not positive)]
+            out += [p + c for p in prefix for c in cases(fa, v, node_id, positive, _expanded)]
+            prefix = [p + c for p in prefix for c in cases(fa, v, node_id, not positive, _expanded)]
         return out
+    if isinstance(t, ast.NamedExpr):
+        # `(p := e)` tests e
+        return cases(fa, t.value, node_id, positive, _expanded)
+    if _expanded:
+        (txt, pos) = _canon_expanded(t, positive)
+        return [[Lit(txt, pos, t, positive, node_id, True)]]
+    if isinstance(t, ast.Name):
+        e = fa.expand(t, node_id)
+        if isinstance(e, (ast.BoolOp, ast.Compare)) or (isinstance(e, ast.UnaryOp) and isinstance(e.op, ast.Not)):
+            return cases(fa, e, node_id, positive, True)
     (txt, pos) = fa._literal(t, node_id, positive)
     return [[Lit(txt, pos, t, positive, node_id, True)]]
+
+
+def split_ifexp(fa, e, node_id):
+    """A value with its conditional expressions decided: [(literals, expression without IfExp)]."""
+    import copy
+    first = None
+    todo = [e]
+    while todo and first is None:
+        x = todo.pop(0)
+        if isinstance(x, ast.IfExp):
+            first = x
+            break
+        if isinstance(x, (ast.Lambda, ast.ListComp, ast.SetComp, ast.DictComp, ast.GeneratorExp)):
+            continue
+        todo += list(ast.iter_child_nodes(x))
+    if first is None:
+        return [([], e)]
+    out = []
+    for pol in (True, False):
+        class R(ast.NodeTransformer):
+            def visit_IfExp(self, n):
+                if n is first:
+                    return n.body if pol else n.orelse
+                return self.generic_visit(n)
+        e2 = first.body if (e is first and pol) else first.orelse if e is first else R().visit(_shallow_copy(e, first))
+        for c in cases(fa, first.test, node_id, pol):
+            for (l2, e3) in split_ifexp(fa, e2, node_id):
+                out.append((c + l2, e3))
+    return out
+
+
+def _shallow_copy(e, keep):
+    """Copy of `e` that shares the subtree `keep` (so that it can be found by identity in the copy)."""
+    import copy
+    if e is keep:
+        return e
+    if not isinstance(e, ast.AST):
+        return e
+    new = copy.copy(e)
+    for f, v in ast.iter_fields(e):
+        if isinstance(v, list):
+            setattr(new, f, [_shallow_copy(x, keep) for x in v])
+        elif isinstance(v, ast.AST):
+            setattr(new, f, _shallow_copy(v, keep))
+    return new
+
+
+def consistent(lits):
+    """No live literal is stated with both polarities."""
+    have = {(l.text, l.pos) for l in lits if l.live}
+    return not any((t, not p) in have for (t, p) in have)
 
 
 def walk(fa, targets, avoid=(), cap=20000):
@@ -338,4 +429,17 @@ def walk(fa, targets, avoid=(), cap=20000):
     dfs(cfg.entry, {}, [], [])
     if len(out) > cap:
         raise AnalysisError("%s: more than %d paths" % (fa.qual, cap))
+    return out
+
+
+def walrus_bindings(fa, trail):
+    """{name: value} bound by `(name := value)` inside the branch tests a path passed (the dataflow only
+    sees those of simple statements)."""
+    out = {}
+    for i in trail:
+        nd = fa.cfg.node(i)
+        if nd.kind == "test" and nd.ast is not None:
+            for x in A.walk_local(nd.ast):
+                if isinstance(x, ast.NamedExpr) and isinstance(x.target, ast.Name):
+                    out[x.target.id] = x.value
     return out
